@@ -34,7 +34,7 @@ func deviationsAt(sc *dscenario, rec sim.Rec) []string {
 	if rec.Class == sim.ClSave {
 		l = append(l, sim.DevNoOK)
 		if sc.devType == "IOS" {
-			l = append(l, sim.DevSaveAbort)
+			l = append(l, sim.DevSaveAbort, sim.DevNvramQ, sim.DevNvramQAbort)
 		}
 	}
 	if (sc.devType == "ASA" || sc.devType == "IOS") && (rec.Class == sim.ClRead || rec.Class == sim.ClChange) && rec.Text != "" {
@@ -202,7 +202,8 @@ func cmdKey(t string) string {
 // failurePoint returns the index in trans of the first failed answer.
 func failurePoint(r *drun) int {
 	for i, t := range r.trans {
-		if t.Dev == sim.DevJobPend {
+		if t.Dev == sim.DevJobPend || t.Dev == sim.DevNvramQ || (t.Dev == sim.DevNvramQAbort && t.Accepted) {
+			// benign: the job result / the answer after the confirmation decides
 			continue
 		}
 		// A dropped connection that the HTTP transport repairs by sending
